@@ -22,8 +22,12 @@ Whitelist (see `_Tr`):
               returned); `for x in <mapped list>:` either as the model's `for_each` combinator (ret_mode 'except': the
               body raises or falls off, no `return`) or as a left fold whose state is the outer names the body
               assigns (`for c in l: if t(c): n += 1`); `a, b = divmod(x, y)`; `return e` / `return e1, e2`;
-              `raise` (only where the kernel declares an error alternative: ret_mode 'option' = `none`, ret_mode
-              'except' = the Lean error term the kernel's `raises` gives for that statement, chosen by its text); `assert` of a test that is constant-true on the kernel's domain;
+              `raise <ExceptionClass>(<message>)` (only where the kernel declares an error alternative and lists the
+              statement in `raises` by exception CLASS and text: ret_mode 'option' = `none`, ret_mode 'except' = the entry's
+              Lean error term; the message arguments - also those of `warnings.warn`, `dict(..)`, `"..".format(..)` - may only
+              be constants, bound names and attribute chains whose intermediate values are mapped and cannot be None, so that
+              building the message cannot raise something else); `assert` of a test that is constant-true on the kernel's
+              domain, or (ret_mode 'except') one listed in `raises` with kind 'assert';
               `pass`; calls listed as no-ops (`warnings.warn`); calls listed as *effects*: the
               argument is the result (`self._buffer.seek(x)`), or a mapped state expression is updated
               (`self._buffer.seek(n, 1)` moves what `self._buffer.tell()` denotes).
@@ -55,7 +59,9 @@ Whitelist (see `_Tr`):
   selection   the whole function; or `targets`: "the assignments to names X, Y, Z" (+ the branch
               condition as a guard); or `value_of`: the expression of one statement (right-hand side,
               `if` test, returned value); or `range`: the statements from one statement to another of
-              the same block, with designated outputs.  Statements are designated by the beginning of
+              the same block, with designated outputs.  A `targets` slice is refused if a selected name is stored to again
+              in any statement that follows the slice (however nested).  Whatever the selection, the function's decorators
+              and parameter defaults must be exactly the ones the spec lists.  Statements are designated by the beginning of
               their (ast-normalised) source text and must be unique in the function (the stop statement of a
               range: the first match after the start statement in the start statement's block).
 """
